@@ -108,10 +108,14 @@ func (v *StructSchema) process(ctx *p.SchemaCtx) {
 		p.VerifOnField(subCtx.Path, key)
 		originalKey := key
 		if key[0] >= 'a' && key[0] <= 'z' {
-			var b [32]byte // Use a size that fits your max key length
-			copy(b[:], key)
-			b[0] -= 32
-			key = string(b[:len(key)])
+			if len(key) <= 32 {
+				var b [32]byte // fast path without allocation for short keys
+				copy(b[:], key)
+				b[0] -= 32
+				key = string(b[:len(key)])
+			} else {
+				key = string(key[0]-32) + key[1:]
+			}
 		}
 
 		fieldMeta, ok := structVal.Type().FieldByName(key)
@@ -188,10 +192,14 @@ func (v *StructSchema) validate(ctx *p.SchemaCtx) {
 		p.VerifOnField(subCtx.Path, key)
 		fieldKey := key
 		if key[0] >= 'a' && key[0] <= 'z' {
-			var b [32]byte // Use a size that fits your max key length
-			copy(b[:], key)
-			b[0] -= 32
-			key = string(b[:len(key)])
+			if len(key) <= 32 {
+				var b [32]byte // fast path without allocation for short keys
+				copy(b[:], key)
+				b[0] -= 32
+				key = string(b[:len(key)])
+			} else {
+				key = string(key[0]-32) + key[1:]
+			}
 		}
 
 		fieldMeta, ok := refVal.Type().FieldByName(key)
